@@ -10,6 +10,7 @@ import (
 	"crypto/sha256"
 	"encoding/hex"
 	"encoding/json"
+	"errors"
 	"fmt"
 	"io"
 	"io/fs"
@@ -42,9 +43,9 @@ var (
 
 	bodies = []string{"none", "json", "chunked"}
 
-	credsQuick    = []string{"none", "unknown-cookie", "expired-cookie", "valid-cookie", "wrong-basic", "right-basic", "gl-token-cookie"}
+	credsQuick    = []string{"none", "unknown-cookie", "expired-cookie", "valid-cookie", "wrong-basic", "right-basic", "gl-token-cookie", "empty-basic"}
 	credsThorough = []string{"none", "unknown-cookie", "expired-cookie", "valid-cookie", "wrong-basic", "right-basic",
-		"gl-token-cookie", "upper-valid-cookie", "wrong-user-basic", "other-name-cookie", "empty-cookie", "valid-cookie+wrong-basic", "unknown-cookie+right-basic"}
+		"gl-token-cookie", "empty-basic", "upper-valid-cookie", "wrong-user-basic", "other-name-cookie", "empty-cookie", "valid-cookie+wrong-basic", "unknown-cookie+right-basic"}
 
 	spellsQuick    = []string{"exact", "slash", "dslash", "dot", "dotdot", "upper"}
 	spellsThorough = []string{"exact", "slash", "dslash", "dot", "dotdot", "upper", "pct", "inner-dslash", "enc-dotdot", "query"}
@@ -491,6 +492,9 @@ func buildRequest(cs *reqCase) *http.Request {
 		cookie(name, strings.ToUpper(tokValid))
 	case "wrong-user-basic":
 		r.SetBasicAuth("Admin", home.VerifC11Password)
+	case "empty-basic":
+		// "Authorization: Basic Og==": empty user name and empty password.
+		r.SetBasicAuth("", "")
 	case "other-name-cookie":
 		cookie("session", tokValid)
 	case "empty-cookie":
@@ -808,7 +812,16 @@ func run(c *lib.Ctx) {
 			defer pprof.StopCPUProfile()
 		}
 	}
-	mode, sub, subN := modeOfShard(c.ShardI, c.ShardN)
+	// The last shard assembles the boot order with an unusable session store.
+	if c.ShardN >= 3 && c.ShardI == c.ShardN-1 {
+		brokenSessionStore(c)
+		return
+	}
+	nsh := c.ShardN
+	if nsh >= 3 {
+		nsh--
+	}
+	mode, sub, subN := modeOfShard(c.ShardI, nsh)
 	if mode == "" {
 		// A single process can assemble one instance only (package-level
 		// registration guards): the boot order.
@@ -899,12 +912,54 @@ func run(c *lib.Ctx) {
 	}
 }
 
+// brokenSessionStore: with users configured, a session store that cannot be
+// opened must either stop the start-up or leave every guard in force.
+func brokenSessionStore(c *lib.Ctx) {
+	quiet()
+	dir, err := os.MkdirTemp(c.TmpDir, "c11b-")
+	if err != nil {
+		c.EngineError(err.Error())
+		return
+	}
+	defer os.RemoveAll(dir)
+	vtime.SetVirtual(t0)
+	c.Count("evals", 1)
+	_, err = home.VerifC11Setup(dir, "boot-broken-sessions")
+	if errors.Is(err, home.ErrVerifC11StartRefused) {
+		c.Count("broken_session_store_start_refused", 1)
+		c.Sample(map[string]any{"mode": "boot-broken-sessions", "outcome": "start-up refused: " + err.Error()})
+		return
+	}
+	if err != nil {
+		c.EngineError("set-up with a broken session store failed elsewhere: " + err.Error())
+		return
+	}
+	c.Count("broken_session_store_started", 1)
+	for _, target := range []string{"/control/status", "/control/clients", "/control/querylog", "/control/filtering/status", "/"} {
+		cs := reqCase{Mode: "boot-broken-sessions", Pattern: target, Base: target, Spell: "exact", Method: "GET", CT: "none", Body: "none", Cred: "none"}
+		o := serve(&cs)
+		c.Count("evals", 1)
+		if _, ok := rejected(&cs, o); !ok || len(o.ran) > 0 {
+			c.Violation("broken-session-store:unauth-not-rejected:"+target, fmt.Sprintf("users are configured, the session store (data/sessions.db) cannot be opened, the server starts all the same and answers GET %s without credentials with HTTP %d (handlers run: %v)", target, o.status, o.ran), cs)
+		}
+	}
+	c.Sample(map[string]any{"mode": "boot-broken-sessions", "outcome": "started"})
+}
+
 func replay(c *lib.Ctx, raw json.RawMessage) string {
 	writeGLToken()
 	defer os.Remove("/tmp/gl_token_" + glToken)
 	var cs reqCase
 	if err := json.Unmarshal(raw, &cs); err != nil {
 		return err.Error()
+	}
+	if cs.Mode == "boot-broken-sessions" {
+		before := c.NumViolationKeys()
+		brokenSessionStore(c)
+		if c.NumViolationKeys() > before {
+			return "violation reproduced: the server starts with an unusable session store and serves anonymous requests"
+		}
+		return ""
 	}
 	if cs.Mode == "" {
 		cs.Mode = "boot"
@@ -952,7 +1007,7 @@ func replay(c *lib.Ctx, raw json.RawMessage) string {
 func main() {
 	lib.Main(&lib.Harness{
 		Prop: "C11", Level: "exploration",
-		Shards: func(string) int { return 16 },
+		Shards: func(string) int { return 17 },
 		Budget: func(tier string) time.Duration {
 			if tier == "thorough" {
 				return 18 * time.Minute
@@ -978,7 +1033,7 @@ func main() {
 				"authorized_but_not_run":          m.Counters["authorized_but_not_run"],
 				"skipped_real_handler_valid_cred": m.Counters["skipped_real_handler_valid_cred"],
 				"skipped_public_login":            m.Counters["skipped_public_login"],
-				"rule": "2 registration orders (boot: DHCP routes before the auth module, user from the configuration; install: everything up to the web module without a user and firstRun=true, then the steps of handleInstallConfigure) x every pattern of the real mux (reflection over the routing index + callback record + go/ast inventory, cross-checked with mux.Handler) x concrete paths (pattern itself; 9 paths for \"/\"; 2 for a subtree) x spellings {exact, trailing slash, //, /./, /x/../, upper case} x 9 methods (incl. the spellings post and Put) x content type {none, JSON, form} x body {none, {}, chunked {} of unknown length} x credentials {none, unknown cookie, expired cookie, valid cookie, wrong basic, right basic, GL-Inet token cookie with a fresh token file while GL mode is off}; thorough adds spellings {percent-encoded letter, inner //, /x/%2e%2e/, query string naming public paths}, methods {TRACE, get, Post}, content types {JSON with charset, text/plain}, credentials {upper-case token, other user name, other cookie name, empty cookie, valid cookie + wrong basic, unknown cookie + right basic}. non-trivial = the request reaches the guard chain of a route (not answered by the mux's clean-path redirect with credentials). Bound: real handlers of package home are not executed with valid credentials, right method and acceptable content type (count skipped_real_handler_valid_cred) except GET on /control/profile, /control/status, /control/version.json; the real login handler is not executed with POST + acceptable content type",
+				"rule": "one start-up with users configured and a session store that cannot be opened (must be refused, or every guard must hold); 2 registration orders (boot: DHCP routes before the auth module, user from the configuration; install: everything up to the web module without a user and firstRun=true, then the steps of handleInstallConfigure) x every pattern of the real mux (reflection over the routing index + callback record + go/ast inventory, cross-checked with mux.Handler) x concrete paths (pattern itself; 9 paths for \"/\"; 2 for a subtree) x spellings {exact, trailing slash, //, /./, /x/../, upper case} x 9 methods (incl. the spellings post and Put) x content type {none, JSON, form} x body {none, {}, chunked {} of unknown length} x credentials {none, unknown cookie, expired cookie, valid cookie, wrong basic, right basic, basic with empty user and password, GL-Inet token cookie with a fresh token file while GL mode is off}; thorough adds spellings {percent-encoded letter, inner //, /x/%2e%2e/, query string naming public paths}, methods {TRACE, get, Post}, content types {JSON with charset, text/plain}, credentials {upper-case token, other user name, other cookie name, empty cookie, valid cookie + wrong basic, unknown cookie + right basic}. non-trivial = the request reaches the guard chain of a route (not answered by the mux's clean-path redirect with credentials). Bound: real handlers of package home are not executed with valid credentials, right method and acceptable content type (count skipped_real_handler_valid_cred) except GET on /control/profile, /control/status, /control/version.json; the real login handler is not executed with POST + acceptable content type",
 			}
 		},
 		Assumptions: []string{
